@@ -53,7 +53,11 @@ static void jitforcing_case(Toks& tk, Out& out, std::size_t ncells, std::size_t 
   std::unique_ptr<micm::ProcessSet> ps;
   try
   {
-    jps = std::make_unique<micm::JitProcessSet<L>>(m.processes, m.vmap);
+    // the object first holds the first reaction alone, then is move-assigned the whole mechanism: a JIT process set is
+    // a value like the CPU one, nothing of what it held before may remain
+    std::vector<micm::Process> first_only(m.processes.begin(), m.processes.begin() + std::min<std::size_t>(1, m.processes.size()));
+    jps = std::make_unique<micm::JitProcessSet<L>>(first_only, m.vmap);
+    *jps = micm::JitProcessSet<L>(m.processes, m.vmap);
     ps = std::make_unique<micm::ProcessSet>(m.processes, m.vmap);
   }
   catch (const std::system_error& e)
@@ -90,7 +94,11 @@ static void jitjacobian_case(Toks& tk, Out& out, std::size_t ncells, std::size_t
   std::unique_ptr<micm::ProcessSet> ps;
   try
   {
-    jps = std::make_unique<micm::JitProcessSet<L>>(m.processes, m.vmap);
+    // the object first holds the first reaction alone, then is move-assigned the whole mechanism: a JIT process set is
+    // a value like the CPU one, nothing of what it held before may remain
+    std::vector<micm::Process> first_only(m.processes.begin(), m.processes.begin() + std::min<std::size_t>(1, m.processes.size()));
+    jps = std::make_unique<micm::JitProcessSet<L>>(first_only, m.vmap);
+    *jps = micm::JitProcessSet<L>(m.processes, m.vmap);
     ps = std::make_unique<micm::ProcessSet>(m.processes, m.vmap);
   }
   catch (const std::system_error& e)
